@@ -29,6 +29,11 @@ pub fn install_panic_hook() {
         } else {
             "<non-string panic>".to_string()
         };
+        if msg.contains("unsafe precondition") {
+            // a non-unwinding panic of the standard library's unsafe-precondition checks: the process is about
+            // to abort; leave the report on stderr for the driver (bin/check turns it into a violation)
+            eprintln!("UB-CHECK: {} @ {}", msg, loc);
+        }
         LAST_PANIC.with(|p| *p.borrow_mut() = Some(format!("{} @ {}", msg, loc)));
     }));
 }
